@@ -495,6 +495,7 @@ type VerifC05Gate struct {
 	Watch  func(key string) bool // nil: every key
 	Ext    func(key string) bool // unwatched keys whose store calls are handler-level parking points
 	Norm   func(key string) string
+	Calls  *[]string // if set: every underlying call ("op:normalised key"), in order (request-level call-sequence correspondence)
 	seenMu sync.Mutex
 	seen   map[string]bool // every full key any caller used (gated or not)
 }
@@ -520,6 +521,13 @@ func (g *VerifC05Gate) gate(op string, key any) *vc05Thread {
 		g.seen = map[string]bool{}
 	}
 	g.seen[k] = true
+	if g.Calls != nil {
+		kk := k
+		if g.Norm != nil {
+			kk = g.Norm(k)
+		}
+		*g.Calls = append(*g.Calls, op+":"+kk)
+	}
 	g.seenMu.Unlock()
 	if g.Watch != nil && !g.Watch(k) {
 		// not a key of the scenario's secrets: a collaborator call as far as the one-time stores go (e.g. storing the access token)
